@@ -62,6 +62,28 @@ Proof.
 Qed.
 Print Assumptions C02_mixed.
 
+(* completeness (Multistage): EndReverse is emitted within 6 * TC N S + 1 requests, with no error and no exception on the way, and by then the reference executor has carried out exactly TC N S forward steps *)
+Module M_C02_multistage_terminates.
+Import AllocTotal.
+Theorem C02_multistage_terminates :
+  forall (N ram disk : Z) (tj : NAdvance.traj) (k : nat),
+         1 <= N ->
+         0 <= ram ->
+         0 <= disk ->
+         (2 <= N -> 1 <= ram + disk) ->
+         let S_ := Z.min (Z.min ram (N - 1) + Z.min disk (N - 1)) (N - 1) in
+         6 * Inst.TC tj N S_ < Z.of_nat k ->
+         exists (o0 : Sched.obs) (m : Sched.mon) (ls : list Sched.line),
+           Sched.run_case (Sched.PMulti N ram disk tj) (MultistageRun.ms_params N ram disk)
+             (repeat Sched.Next k) = Actions.Ok (o0, m, ls) /\
+           RunFacts.mon_ok m /\
+           RunFacts.no_raise ls /\
+           (exists ob : Sched.obs, In (Sched.LNext (Actions.Yield Actions.EndReverse) ob) ls) /\
+           Exec.fwd_total (Exec.cnt (Sched.mx m)) = Inst.TC tj N S_.
+Proof. exact (@AllocTotal.multistage_terminates). Qed.
+Print Assumptions C02_multistage_terminates.
+End M_C02_multistage_terminates.
+
 (* PARTIAL (Revolve): the whole converted stream of the structural converter is accepted by an executor with RAM budget cm; the bridge from the index-based converter of Model/RevConv.v is not proved yet; DiskRevolve, PeriodicDiskRevolve and HRevolve: validated model + oracle only (DESIGN.md 6) *)
 Module M_C02_revolve_structural_partial.
 Import RevGen.
